@@ -633,6 +633,7 @@ def run_grouped(ck, name, case_type, cases, preds, suspects=(), group=25, shard_
 def run(ck):
     common.force_repo_path()
     from tools import gen_tables
+    import suds.client   # noqa  (suds.sax.parser relies on suds.metrics being loaded)
     import suds.sax
     from suds.sax.enc import Encoder
     from suds.sax.text import Text
@@ -909,6 +910,7 @@ def run(ck):
             raw = "\x00" + r[1]
         cases.append((v, ("attr", scope, pi), raw, seen))
         meta.append({"value": v, "attr": True, "seen": seen, "raw": raw, "scope": scope, "pi": pi,
+                     "root_decl": root_decl, "kid_decl": kid_decl, "on_kid": on_kid,
                      "where": "as attribute v on %s of <r %s><k %s/></r>; PrefixNormalizer(r).refit(); r.plain()"
                               % ("k" if on_kid else "r", root_decl, kid_decl)})
         ck.seen(("refit", v, tuple(sorted(scope))), nontrivial=":" in v)
@@ -1147,6 +1149,7 @@ def sweep_python(ck, Element, Document):
 
 def replay(ck, payload):
     common.force_repo_path()
+    import suds.client   # noqa
     from suds.sax.element import Element
     from suds.sax.document import Document
     print(payload.get("what"))
@@ -1174,6 +1177,25 @@ def replay(ck, payload):
             label, path, attr = [p for p in REQ_POS if p[0] == pos][0]
             node = w.path(*path)
             print("expat reads :", repr(dict(node.attrs).get(attr) if attr else node.text()), " sent:", repr(v))
+        elif kind == "refit":
+            from suds.sax.element import PrefixNormalizer
+            r = Element("r")
+            r.nsprefixes.update(payload["root_decl"])
+            k = Element("k")
+            k.nsprefixes.update(payload["kid_decl"])
+            r.append(k)
+            (k if payload["on_kid"] else r).set("v", v)
+            PrefixNormalizer(r).refit()
+            print("after PrefixNormalizer(r).refit():", r.plain(), " value was:", repr(v))
+        elif kind == "tree":
+            import ast
+            from suds.sax.parser import Parser
+            t = ast.literal_eval(payload["tree"])
+            doc = Document(build_element(t))
+            out = doc.str() if payload.get("pretty") else doc.plain()
+            print("serialised now:", out)
+            print("suds re-reads :", dump_element(Parser().parse(string=out.encode("utf-8")).root()))
+            print("tree was      :", t)
         elif kind == "rep":
             cl = Clients()
             print("reply (sent in %s):" % payload.get("encoding", "UTF-8"), payload["reply"])
